@@ -638,10 +638,11 @@ class Context:
         for i, a in enumerate(args):
             others = cache.get(a.key)
             if others is None:
-                others = cache[a.key] = set()
+                # insertion-ordered: find_dtype_index iterates over it, and the result must not depend on the hash seed
+                others = cache[a.key] = dict()
             for j, b in enumerate(args):
                 if i != j:
-                    others.add(b.key)
+                    others[b.key] = None
 
     def _has_same_dtype(self, x, y):
         if x is y:
